@@ -23,6 +23,7 @@ EXPLANATION = (
     "(T5), arm table of the walker's state machine (T8) and who-supplies-entries for the error iterator (T3)."
 )
 NOT_DECIDED = "set equality of the visited set with reachability for all graphs"
+CONFIGS = ["default", "nofastcheck"]  # thorough tier also analyses the build without fast_check / symbols
 ASSUMPTIONS = ["caller-supplied roots are distinct (documented: roots are a set)"]
 
 IT = "graph::ModuleEntryIterator"
@@ -151,9 +152,12 @@ def run(F, R, tier):
     fc = [n for n in nx["_nodes"] if callee_matches(n, ["Module::dependencies_prefer_fast_check"])]
     R.floor("C15-b fast-check dependency selection", len(fc), 1)
     for n in fc:
-        g = guards_at(F, n)
-        ok = any(x.kind == "cond" and x.pol and expr_text(x.node).endswith("prefer_fast_check_graph") for x in g) and any(x.kind == "cond" and x.pol and expr_text(x.node) == "check_types" for x in g)
-        R.ob("C15-b", "fast-check dependencies only when requested and the module is type-checkable", ok, "dependencies_prefer_fast_check used without `check_types && prefer_fast_check_graph`", where(n))
+        g = expand_local_guards(F, guards_at(F, n), nx)
+        ok = any(x.kind == "cond" and x.pol and expr_text(x.node).endswith("prefer_fast_check_graph") for x in g) \
+            and any(x.kind == "cond" and x.pol and (x.node.get("fn") or "").endswith("GraphKind::include_types") for x in g) \
+            and any(x.kind == "cond" and x.pol and (x.node.get("fn") or "").endswith("is_checkable") for x in g)
+        R.ob("C15-b", "fast-check dependencies only when requested, types are included and the module is type-checkable", ok,
+             "dependencies_prefer_fast_check is selected without `kind.include_types() && is_checkable(..) && prefer_fast_check_graph`: a code-only walk would follow the pruned fast-check dependency set and miss implementation-only imports", where(n))
 
     # ---------------- C15-c ------------------------------------------------
     ms = [n for n in nx["_nodes"] if n["k"] == "Match" and "previous_module" in expr_text(n["scrut"])]
@@ -165,7 +169,10 @@ def run(F, R, tier):
                 R.ob("C15-c", "previous module: its dependencies are analysed", len(calls) == 1, "Module arm does not call analyze_module_deps exactly once", where(arm["body"]))
             elif "ModuleEntryRef::Redirect" in pt:
                 ps = [n for n in walk(arm["body"]) if n.get("k") == "MethodCall" and n["name"].startswith("push")]
-                R.ob("C15-c", "previous redirect: its target is enqueued", len(ps) == 1 and not calls, "Redirect arm does not enqueue the target", where(arm["body"]))
+                binds = {b_["lid"] for b_ in pat_bindings(arm["pat"])}
+                direct = len(ps) == 1 and peel_value(ps[0]["args"][0]).get("lid") in binds
+                R.ob("C15-c", "previous redirect: its own target (the next hop) is enqueued", len(ps) == 1 and not calls and direct,
+                     "Redirect arm does not enqueue the redirect's own target (`%s`): intermediate hops of a redirect chain would not be yielded" % (expr_text(ps[0]["args"][0]) if ps else "nothing"), where(arm["body"]))
             else:
                 eff = [n for n in walk(arm["body"]) if n.get("k") == "MethodCall"]
                 R.ob("C15-c", "previous error / none: nothing is enqueued", not eff, "Err/None arm has effects", where(arm["body"]))
